@@ -788,6 +788,8 @@ class Exec:
         st.labels = dict(st.labels)
         st.labels[f"pre_{tag}"] = pre
         # ---- invariant holds on entry
+        for hnt in spec.hints:
+            st.assume(self.lemma_instance(hnt, st))
         for nm, e in spec.inv.items():
             self.oblige(st, f"inv/{tag}/init", nm, self.spec_bool(e, st), stmt.lineno)
         # ---- arbitrary iteration
@@ -809,7 +811,7 @@ class Exec:
         for nm, e in spec.inv.items():
             head.assume(self.spec_bool(e, head))
         for hnt in spec.hints:
-            head.assume(self.spec_bool(hnt, head))
+            head.assume(self.lemma_instance(hnt, head))
         head_snapshot = head.clone()
         head.labels[tag] = head_snapshot
         self.vacuity(head, f"{tag}/head")
@@ -840,6 +842,8 @@ class Exec:
                     newg[g] = self.spec_val(gs.step, s, extra={"old": head_snapshot})
                 for g, val in newg.items():
                     s.store[g] = val
+                for hnt in spec.hints:
+                    s.assume(self.lemma_instance(hnt, s))
                 for nm, e in spec.inv.items():
                     self.oblige(s, f"inv/{tag}/preserve", nm, self.spec_bool(e, s), stmt.lineno)
                 if it is not None and it.get("owner") is not None and ("children" in hw or "nchildren" in hw):
@@ -870,6 +874,17 @@ class Exec:
         for s in after_states:
             out.append((s, Flow.NEXT, None))
         return out
+
+    def lemma_instance(self, hint: str, st: State):
+        """`LEMMA-NAME: expr` - an instance of a registered lemma (proved separately as lemma/<name>); recorded as used."""
+        from .contract import LEMMAS
+
+        name, _, expr = hint.partition(":")
+        name = name.strip()
+        if name not in LEMMAS:
+            raise AnchorMismatch(f"hint refers to unknown lemma {name}")
+        self.used_lemmas = getattr(self, "used_lemmas", set()) | {name}
+        return self.spec_bool(expr, st)
 
     def iter_source(self, node, st: State):
         """for-loop source -> dict(n=len, elems=[(VList...)], kind) ."""
